@@ -13,7 +13,11 @@ def check(ctx):
     arb = ctx.__dict__.get("_arbiter_classes", set())
     ctx.check(arb == {"OneHotRoundRobin"}, "C09.arbiter-class", core.SCHED, "trivial_roundrobin_cc_scheduler.arbiter-class", found=str(sorted(arb)),
               required="the component arbiter is OneHotRoundRobin (its one-hot grant / rotation obligations follow)")
+    ctx.use(C39.ELAB)
     C39.check_onehot(ctx)
+    from . import ohs
+
+    ohs.one_hot_switch_dynamic(ctx, "C09")
 
 
 MUTANTS = [
